@@ -730,4 +730,6 @@ WITNESSES = [
     {"id": "C14.w-send-retried-after-interruption", "rule": "C14.R1", "file": PK,
      "old": "\tconst int rtval = tr_send_all(rtr_socket->tr_socket, pdu_converted, len, RTR_SEND_TIMEOUT);\n",
      "new": "\tint rtval;\n\n\tdo {\n\t\trtval = tr_send_all(rtr_socket->tr_socket, pdu_converted, len, RTR_SEND_TIMEOUT);\n\t} while (rtval == TR_INTR);\n"},
+    {"id": "C14.w-zero-octet-normalised-in-the-buffer", "rule": "C14.R5", "file": PK,
+     "old": "\t\t\tRTR_DBG1(\"Warning: Zero field of received Prefix PDU doesn't contain 0\");", "new": "\t\t\t((struct pdu_ipv4 *)pdu)->zero = 0;"},
 ]
